@@ -37,6 +37,9 @@ type VectorIid struct {
 func NewVectorIid(distribution VectorPdf, n int) (*VectorIid, error) {
   m := distribution.Dim()
   t := NewScalar(distribution.ScalarType(), 0.0)
+  if m == 0 {
+    return nil, fmt.Errorf("error while creating a vector iid distribution: the distribution has dimension zero")
+  }
   if n < 0 || n % m != 0 {
     return nil, fmt.Errorf("error while creating a vector iid distribution: dimension `%d' is not a multiple of dimension `%d'", n, m)
   }
